@@ -3,6 +3,7 @@
 //! Decides verdicts; never links yarel.  Exit 0: property held on everything explored (known findings
 //! are printed, not alarms); exit 1: VIOLATION line(s); exit >= 2: machinery failure, no verdict.
 mod ast;
+mod c01;
 mod c03;
 mod c04;
 mod c05;
@@ -80,6 +81,7 @@ fn main() {
     };
     let _ = replay;
     let report = match id.as_str() {
+        "C01" => c01::run(&ctx),
         "C03" => c03::run(&ctx),
         "C04" => c04::run(&ctx),
         "C05" => c05::run(&ctx),
